@@ -9,6 +9,13 @@
      f.new   mode, key, iv, seg, dir, pad    new Encrypter (dir enc) / Decrypter (dir dec) on a new mode object
      f.feed  data, fin, out, err             feed(data) (fin = 0) or feed(None) (fin = 1): replay
      f.end   stream, outs, err               whole stream, concatenated outputs, error flag = FeederSpec
+     s.run   mode, key, iv, seg, dir, pad, bs, data, reads, out, err
+                                             encrypt_stream / decrypt_stream (dir) with block_size bs on an input stream holding
+                                             data; reads = what the successive in_stream.read(bs) calls returned (logged by the
+                                             stream object); out = bytes written to out_stream, err = 1 iff the helper raised:
+                                             (out, err) = FeederSpec(data) - the WHOLE content of the stream, however it was handed
+                                             out -, every read result is non-empty except the last, nothing is left unread, and
+                                             the loop model FeedStream(reads) gives the same.  One event per run (stateless).
    After a rejected event the rest of the group is skipped (the hidden state of the object is unknown). *)
 EXTENDS AES, Json, IOUtils, TLC
 M == INSTANCE Feeder WITH BLK <- 16, CM <- 256, E <- EncBlockRK, D <- DecBlockRK
@@ -21,6 +28,22 @@ NewOk(ev) == /\ ev.mode \in M!Modes /\ Len(ev.key) \in {16, 24, 32}
              /\ (ev.mode = "ecb" \/ Len(ev.iv) = 16) /\ (ev.mode # "cfb" \/ ev.seg \in 1..16)
 Flag(e) == IF e = "" THEN 0 ELSE 1
 
+StreamVerdict(ev) ==
+    IF ~NewOk(ev) \/ ev.dir \notin {"enc", "dec"} \/ ev.pad \notin {"default", "none"} \/ ev.bs < 1 THEN "bad-event"
+    ELSE LET c    == CfgOf(ev)
+             want == M!StreamSpec(c, ev.dir, ev.pad, ev.data)
+             got  == M!Flatten(ev.reads, 1, <<>>)
+             n    == Len(ev.reads)
+         IN  IF \E j \in 1..n : Len(ev.reads[j]) > ev.bs THEN "bad-event"
+             ELSE IF Flag(want.err) # ev.err THEN (IF ev.err = 1 THEN "stream-helper-raised" ELSE "stream-helper-did-not-raise")
+             ELSE IF ev.out # want.out THEN
+                  (IF got # ev.data /\ Len(got) < Len(ev.data) THEN "stream-helper-stopped-reading-before-end-of-stream"
+                   ELSE "stream-helper-output-differs-from-spec")
+             ELSE IF got # ev.data THEN "stream-helper-did-not-read-whole-stream"
+             ELSE IF \E j \in 1..(n - 1) : ev.reads[j] = <<>> THEN "stream-helper-read-past-end"
+             ELSE LET r == M!FeedStream(c, ev.dir, ev.pad, ev.reads, ev.bs, FALSE) IN
+                  IF r.out # ev.out \/ Flag(r.err) # ev.err THEN "stream-helper-differs-from-loop-model" ELSE "ok"
+
 \* Step(ev) = [v |-> verdict, cur |-> next cur]
 Step(ev) ==
     IF ev.op = "m.new" THEN
@@ -31,6 +54,7 @@ Step(ev) ==
         ELSE LET c == CfgOf(ev) IN
              [v |-> "ok", cur |-> [grp |-> ev.grp, kind |-> "f", cfg |-> [m |-> c, dir |-> ev.dir, pad |-> ev.pad],
                                    st |-> M!NewFeeder(M!NewMode(c), ev.dir, ev.pad), bad |-> FALSE]]
+    ELSE IF ev.op = "s.run" THEN [v |-> StreamVerdict(ev), cur |-> cur]
     ELSE IF cur.grp # ev.grp THEN [v |-> "event-without-object", cur |-> cur]
     ELSE IF cur.bad THEN [v |-> "ok", cur |-> cur]
     ELSE IF ev.op = "m.call" /\ cur.kind = "m" THEN
